@@ -393,8 +393,74 @@ def run_reproject(case):
     return r
 
 
+# -- GeoBoxes that share lazily built state: histories of wraps ------------------------------------------------------
+FAMILY = {
+    "parent": (lambda g: g, lambda g: Affine.identity()),
+    "crop": (lambda g: g[2:6, 3:9], lambda g: Affine.translation(3, 2)),
+    "last-row": (lambda g: g[-1:, :], lambda g: Affine.translation(0, g.shape[0] - 1)),
+    "zoom_out2": (lambda g: g.zoom_out(2), lambda g: Affine.scale(2)),
+    "pad3": (lambda g: g.pad(3), lambda g: Affine.translation(-3, -3)),
+    "zoom_to": (lambda g: g.zoom_to((4, 5)), lambda g: Affine.scale(g.shape[1] / 5, g.shape[0] / 4)),
+}
+
+
+def gen_family(tier):
+    import itertools  # pylint: disable=import-outside-toplevel
+
+    def g():
+        names = list(FAMILY)
+        for kind in ("gcp", "rotated", "north-up"):
+            for seq in itertools.product(names, repeat=2):
+                yield (kind, seq)
+            if tier == "thorough":
+                for seq in itertools.product(names, repeat=3):
+                    yield (kind, seq)
+
+    return g
+
+
+def run_family(case):
+    """Wrap several GeoBoxes derived from ONE parent (GCP boxes share their GCPMapping object, affine boxes their
+    cached extent) one after another; every wrapped array must recover a GeoBox that maps pixels like the box it
+    was wrapped with, whatever was wrapped before."""
+    kind, seq = case
+    crs = "EPSG:4326"
+    G = make_geobox(kind, (8, 10), crs) if kind != "gcp" else None
+    if kind == "gcp":
+        A = base_affine("north-up", crs)
+        pix = np.asarray([(x, y) for y in (0.0, 4.0, 8.0) for x in (0.0, 5.0, 10.0)])
+        wld = np.asarray([A * (x + 0.01 * x * y, y) for x, y in pix])
+        G = GCPGeoBox((8, 10), GCPMapping(pix, wld, crs))
+    r = R(outcome=f"family:{kind}:{len(seq)}")
+    px = abs(base_affine("north-up", crs).a)
+    wrapped = []
+    for name in seq:
+        g = FAMILY[name][0](G)
+        M = FAMILY[name][1](G)
+        xx = wrap_xr(np.zeros(tuple(g.shape), dtype="uint8"), g)
+        wrapped.append((name, g, M, xx))
+    for pos, (name, g, M, xx) in enumerate(wrapped):
+        rec = xx.odc.geobox
+        what = f"{kind}: wrapped {list(seq)}; array #{pos} ({name})"
+        if rec is None or tuple(rec.shape) != tuple(g.shape):
+            r.fail(f"family:recover:{kind}", f"{what}: recovered {rec!r}")
+            continue
+        ny, nx = g.shape
+        jj, ii = np.meshgrid(np.arange(nx) + 0.5, np.arange(ny) + 0.5)
+        gx, gy = rec.pix2wld(jj, ii)
+        mx, my = (np.asarray(v) for v in zip(*[M * (x, y) for x, y in zip(jj.ravel(), ii.ravel())]))
+        ox, oy = G.pix2wld(mx.reshape(jj.shape), my.reshape(jj.shape))
+        err = np.maximum(np.abs(np.asarray(gx) - ox), np.abs(np.asarray(gy) - oy)).max() / px
+        tol = 1e-4 if kind == "gcp" else 1e-7
+        if err > tol:
+            order = "first" if pos == 0 else "after-sibling"
+            r.fail(f"family:location:{kind}:{order}", f"{what}: recovered GeoBox is off by up to {err:.4g} px from the GeoBox it was wrapped with")
+    return r
+
+
 def slices(tier):
     return [
+        e1.Slice("shared-state-family", gen_family(tier), run_family, "all ordered pairs (thorough: triples) of wraps of GeoBoxes derived from one parent"),
         e1.Slice("ops-bfs", gen_bfs(tier), run_bfs, "BFS over operation sequences per initial array", shards=128),
         e1.Slice("reproject", gen_reproject(tier), run_reproject, "DataArray/Dataset x CRS pairs x target kind x backend"),
     ]
